@@ -1,0 +1,76 @@
+//go:build verif
+
+// Package c16 re-exports, for the C16 verification harness only, the parts of
+// the internal packages the snapshot directory check drives. Compiled only
+// with -tags verif.
+package c16
+
+import (
+	gvfs "github.com/lni/vfs"
+
+	"github.com/lni/dragonboat/v4/internal/fileutil"
+	"github.com/lni/dragonboat/v4/internal/rsm"
+	"github.com/lni/dragonboat/v4/internal/server"
+	"github.com/lni/dragonboat/v4/internal/transport"
+	"github.com/lni/dragonboat/v4/internal/vfs"
+	pb "github.com/lni/dragonboat/v4/raftpb"
+)
+
+type (
+	// IFS is the file system interface the repository uses.
+	IFS = vfs.IFS
+	// File is a file of IFS.
+	File = vfs.File
+	// MemFS is the in-memory file system (strict mode keeps synced state apart).
+	MemFS = gvfs.MemFS
+	// DiskUsage is part of IFS.
+	DiskUsage = gvfs.DiskUsage
+	// OpenOption is part of IFS.
+	OpenOption = gvfs.OpenOption
+	// Chunk is the receiving side of snapshot streams.
+	Chunk = transport.Chunk
+	// SSEnv manages the directories of one snapshot.
+	SSEnv = server.SSEnv
+	// SnapshotValidator checks a snapshot byte stream.
+	SnapshotValidator = rsm.SnapshotValidator
+)
+
+var (
+	// NewStrictMem returns the strict in-memory file system.
+	NewStrictMem = gvfs.NewStrictMem
+	// NewChunk is transport.NewChunk.
+	NewChunk = transport.NewChunk
+	// NewSnapshotValidator is rsm.NewSnapshotValidator.
+	NewSnapshotValidator = rsm.NewSnapshotValidator
+	// IsShrunkSnapshotFile is rsm.IsShrunkSnapshotFile.
+	IsShrunkSnapshotFile = rsm.IsShrunkSnapshotFile
+	// HeaderSize is rsm.HeaderSize.
+	HeaderSize = rsm.HeaderSize
+	// SnapshotFlagFilename is the name of the flag file.
+	SnapshotFlagFilename = fileutil.SnapshotFlagFilename
+	// MetadataFilename is the name of the metadata file.
+	MetadataFilename = server.MetadataFilename
+	// SnapshotDirNameRe and friends classify directory names.
+	SnapshotDirNamePartsRe = server.SnapshotDirNamePartsRe
+	GenSnapshotDirNameRe   = server.GenSnapshotDirNameRe
+	RecvSnapshotDirNameRe  = server.RecvSnapshotDirNameRe
+)
+
+// FlagFileIndex reads a flag / metadata file; ok=false when the real reader
+// panics (corrupted) or returns an error.
+func FlagFileIndex(dir string, name string, fs vfs.IFS) (index uint64, ok bool) {
+	defer func() {
+		if r := recover(); r != nil {
+			ok = false
+		}
+	}()
+	var ss pb.Snapshot
+	if err := fileutil.GetFlagFileContent(dir, name, &ss, fs); err != nil {
+		return 0, false
+	}
+	return ss.Index, true
+}
+
+// MkdirAll is fileutil.MkdirAll (creates the snapshot root the way
+// Env.CreateSnapshotDir does).
+func MkdirAll(dir string, fs vfs.IFS) error { return fileutil.MkdirAll(dir, fs) }
